@@ -117,6 +117,18 @@ CLAIMED["C12"] = (
     "http.BareServer driven by a Tymist over scripted sockets, the tick at which the peer socket is closed compared (spec->code)",
     "Exhaustive model checking of the idle rule for every activity timing over 7 (quick) / 9 ticks and three tymeouts plus "
     "conformance of the three real server flavours on every such behaviour at three exact time scales.", "3 C12", "")
+CLAIMED["C13"] = (
+    "TLA+ specs specs/http/LineFrame.tla (byte-level incremental line framing over {CR, LF, other}: earliest terminator, ties to "
+    "the first listed, trailing CR held back; every string <= 6 cut into reads in every way; invariants Confluent/PrefixOfWhole; the "
+    "pre-repair algorithm is kept as Algo=listed and refuted by TLC) and specs/http/Message.tla (grammar of well-formed requests/"
+    "responses with their abstract parse result): every (string, fragmentation) fed to the real parseLine; every generated message "
+    "and pipeline fed to real Requestant/Respondent whole, bytewise, in all 1-cuts and in 2-cuts around token boundaries, every "
+    "fragmentation compared with the whole feed (spec->code)",
+    "Exhaustive model checking of line framing confluence within the bounds plus conformance of the real line parser on every "
+    "enumerated case, and differential fragmentation testing of the real request and response parsers on every message of the "
+    "TLA+ grammar (hundreds of thousands of fragmentations).", "3 C13",
+    "A difference between the whole-feed result and the grammar's abstract result that is the same for every fragmentation is "
+    "recorded as a divergence, not an alarm (the property is about fragmentation only).")
 NA = {
  "C28": "pure value-fidelity of json/cbor2/msgpack + dataclass reflection: no state/transition structure for a TLA+ model to decide (DESIGN.md section 4)",
 }
